@@ -78,6 +78,7 @@ struct FInstr {
       bool sg = isa<FPToSIInst>(I);
       Value *ext = sg ? B.CreateSExtOrTrunc(I, I64) : B.CreateZExtOrTrunc(I, I64);
       B.CreateCall(fnToInt, {S(I->getOperand(0)), I->getOperand(0), ext, ConstantInt::get(I32, sg?0:1)}); return; }
+    if (isa<FPExtInst>(I)){ if (isD(I->getOperand(0)->getType())){ IRBuilder<> B(I); B.CreateCall(fnEscape,{S(I->getOperand(0)), ConstantInt::get(I32,6)}); } return; }
     if (isa<FPTruncInst>(I)){ if (isD(I->getOperand(0)->getType())){ IRBuilder<> B(I); B.CreateCall(fnEscape,{S(I->getOperand(0)), ConstantInt::get(I32,1)}); } return; }
     if (auto *L = dyn_cast<LoadInst>(I)){
       if (isD(L->getType())){ IRBuilder<> B(after(I)); sh[I]=B.CreateCall(fnLoad,{B.CreateBitCast(L->getPointerOperand(), I8P)}); }
